@@ -81,7 +81,10 @@ Section TreeLemmas.
 
   Lemma child_put_same k (x t t' : tree) : put k x t = Some t' -> child k t' = Some x.
   Proof.
-    destruct k as [s|i], t; simpl; intro H; try discriminate.
+    (* goal 6 = (KS, TD): handled first, so that the script does not depend on the value of dictok *)
+    destruct k as [s|i], t; simpl; intro H.
+    6: { destruct dictok eqn:D; [|discriminate H]. inversion H. simpl. try rewrite D. apply assoc_set_same. }
+    all: try discriminate.
     - inversion H. simpl. apply assoc_set_same.
     - destruct (Nat.ltb i (List.length l)) eqn:E; [|discriminate]. inversion H. simpl.
       apply list_set_same. apply Nat.ltb_lt. exact E.
@@ -89,7 +92,10 @@ Section TreeLemmas.
 
   Lemma child_put_other k k' (x t t' : tree) : put k x t = Some t' -> k <> k' -> child k' t' = child k' t.
   Proof.
-    destruct k as [s|i], t; simpl; intros H N; try discriminate.
+    destruct k as [s|i], t; simpl; intros H N.
+    6: { destruct dictok eqn:D; [|discriminate H]. inversion H. destruct k' as [s'|j]; simpl; [|reflexivity].
+         try rewrite D. apply assoc_set_other. intro E. apply N. subst. reflexivity. }
+    all: try discriminate.
     - inversion H. destruct k' as [s'|j]; simpl; [|reflexivity].
       apply assoc_set_other. intro E. apply N. subst. reflexivity.
     - destruct (Nat.ltb i (List.length l)) eqn:E; [|discriminate]. inversion H.
@@ -99,7 +105,9 @@ Section TreeLemmas.
 
   Lemma put_succeeds k (x c t : tree) : child k t = Some c -> exists t', put k x t = Some t'.
   Proof.
-    destruct k as [s|i], t; simpl; intro H; try discriminate.
+    destruct k as [s|i], t; simpl; intro H.
+    6: { destruct dictok; [eexists; reflexivity | discriminate H]. }
+    all: try discriminate.
     - eexists. reflexivity.
     - assert (L : i < List.length l) by (apply nth_error_Some; rewrite H; discriminate).
       apply Nat.ltb_lt in L. rewrite L. eexists. reflexivity.
@@ -162,10 +170,12 @@ Section TreeLemmas.
     destruct (child k t); [apply IH | reflexivity].
   Qed.
 
-  Lemma get_below_leaf q (t : tree) : (forall fs, t <> TO fs) -> (forall l, t <> TL l) -> q <> [] -> get q t = None.
+  Lemma get_below_leaf q (t : tree) :
+    (forall fs, t <> TO fs) -> (forall fs, t <> TD fs) -> (forall l, t <> TL l) -> q <> [] -> get q t = None.
   Proof.
-    intros HO HL N. destruct q as [|k q]; [contradiction|]. simpl.
-    destruct k, t; simpl; try reflexivity; [exfalso; eapply HO | exfalso; eapply HL]; reflexivity.
+    intros HO HD HL N. destruct q as [|k q]; [contradiction|].
+    destruct t; try (exfalso; eapply HO; reflexivity); try (exfalso; eapply HD; reflexivity);
+      try (exfalso; eapply HL; reflexivity); destruct k; reflexivity.
   Qed.
 
   (* ---------- the walk ---------- *)
@@ -230,12 +240,17 @@ Section TreeLemmas.
     - destruct t; simpl in H; try contradiction.
       + exists v. reflexivity.
       + apply obj_paths_in in H. destruct H as [k [c [p' [E _]]]]. discriminate.
+      + apply obj_paths_in in H. destruct H as [k [c [p' [E _]]]]. discriminate.
       + apply list_paths_in in H. destruct H as [j [c [p' [E _]]]]. discriminate.
     - destruct t; simpl in H; try contradiction.
       + destruct H as [H|[]]. discriminate.
       + apply obj_paths_in in H. destruct H as [s [c [p' [E [I [P F]]]]]]. inversion E. subst k p'.
         simpl in W. apply andb_true_iff in W. destruct W as [W1 W2].
         simpl. rewrite (assoc_in_nodup _ _ _ W1 I). apply IH; [|exact F].
+        rewrite forallb_forall in W2. apply (W2 (s, c) I).
+      + apply obj_paths_in in H. destruct H as [s [c [p' [E [I [P F]]]]]]. inversion E. subst k p'.
+        simpl in W. apply andb_true_iff in W. destruct W as [W0 W2]. apply andb_true_iff in W0. destruct W0 as [D W1].
+        simpl. rewrite D, (assoc_in_nodup _ _ _ W1 I). apply IH; [|exact F].
         rewrite forallb_forall in W2. apply (W2 (s, c) I).
       + apply list_paths_in in H. destruct H as [j [c [p' [E [N F]]]]]. inversion E. subst k p'.
         simpl in W. simpl. rewrite N. apply IH; [|exact F].
@@ -251,7 +266,7 @@ Section TreeLemmas.
                 is_prefix p q = true -> p = q).
     { clear. intros p q t a b Ha Hb Na P. destruct (is_prefix_app _ _ P) as [r ->].
       rewrite get_app, Ha in Hb. destruct r as [|k r]; [rewrite app_nil_r; reflexivity|].
-      rewrite get_below_leaf in Hb; [discriminate | | | discriminate];
+      rewrite get_below_leaf in Hb; [discriminate | | | | discriminate];
         intros ? E; subst a; apply Na; reflexivity. }
     intros Ha Hb Na Nb C. apply orb_true_iff in C. destruct C as [C|C].
     - eapply K; eauto.
